@@ -50,6 +50,13 @@ impl Cfg {
         put("MDB_SHARD_MIN_TARGET_SIZE", self.shard_min.map(|x| x.to_string()));
         put("INGESTION_BLOCK_SIZE", self.ingest_block.map(|x| x.to_string()));
         put("MAX_CONCURRENT_UPLOADS", self.max_uploads.map(|x| x.to_string()));
+        // a configuration named "...-indexcap<N>" caps the shard manager's chunk index at N entries
+        if let Some(p) = self.name.find("indexcap") {
+            let digits: String = self.name[p + 8..].chars().take_while(|c| c.is_ascii_digit()).collect();
+            if !digits.is_empty() {
+                v.push(("HF_XET_CHUNK_INDEX_TABLE_MAX_SIZE".to_string(), digits));
+            }
+        }
         v
     }
     pub fn to_json(&self) -> Value {
